@@ -615,6 +615,10 @@ func encodeScalar(b *ast.BasicLit) (any, error) {
 		}
 		switch {
 		case !info.IsDouble():
+			if str == "" {
+				// A tag without a value reads back as null, not as empty bytes.
+				return rawScalar(`!!binary ""`), nil
+			}
 			return rawScalar("!!binary " + base64.StdEncoding.EncodeToString([]byte(str))), nil
 
 		case strings.Contains(str, "\n"):
